@@ -528,7 +528,7 @@ func (r *run) sectionCharge() error {
 	var mu sync.Mutex // findings / totals only, taken outside the measured calls
 	stats := make([]chargeStats, len(cw.scens))
 	var execErr error
-	const maxReported = 10
+	const maxReported = maxFindingsPerSection
 	reported := 0
 
 	var wg sync.WaitGroup
